@@ -648,7 +648,7 @@ def correspondence(ctx):
     cf = core.VERIF / "corpus" / "template" / "C25.jsonl"
     if cf.exists():
         corpus = [json.loads(l) for l in cf.read_text().splitlines() if l.strip()]
-    cases = corpus + [gen_case(ctx.rng) for _ in range(ctx.pick(450, 6000))]
+    cases = corpus + [gen_case(ctx.rng) for _ in range(ctx.pick(380, 6000))]
     if not ctx.quick:
         cases += list(exhaustive_cases(4))
     else:
